@@ -209,7 +209,12 @@ func escapeQuotedStringLit(s string) []byte {
         return nil
     }
     buf := make([]byte, 0, len(s))
+    // afterHex: the previous rune was written as \x escapes. That escape takes up to four
+    // hexadecimal digits, so a digit following it must not be written as it is.
+    afterHex := false
     for i, r := range s {
+        wasHex := afterHex
+        afterHex = false
         switch r {
         case '\n':
             buf = append(buf, '\\', 'n')
@@ -229,20 +234,24 @@ func escapeQuotedStringLit(s string) []byte {
                 buf = appendRune(buf, r)
             }
         default:
-            if !unicode.IsPrint(r) {
-                var fmted string
-                if r < 65536 {
-                    fmted = fmt.Sprintf("\\u%04x", r)
-                } else {
-                    fmted = fmt.Sprintf("\\U%08x", r)
+            if !unicode.IsPrint(r) || (wasHex && isHexDigit(r)) {
+                // this dialect's string literals have no \u and \U escapes (its
+                // scanner takes \x instead): the rune's UTF-8 bytes are written
+                // one by one
+                for _, b := range []byte(string(r)) {
+                    buf = append(buf, fmt.Sprintf("\\x%02x", b)...)
                 }
-                buf = append(buf, fmted...)
+                afterHex = true
             } else {
                 buf = appendRune(buf, r)
             }
         }
     }
     return buf
+}
+
+func isHexDigit(r rune) bool {
+    return (r >= '0' && r <= '9') || (r >= 'a' && r <= 'f') || (r >= 'A' && r <= 'F')
 }
 
 func appendRune(b []byte, r rune) []byte {
